@@ -32,7 +32,7 @@ package archiver
 
 //@ func ProcessBody
 //@   property C10,C02
-//@   sweep idx slice div assert
+//@   sweep idx slice div assert extnil
 //@   attr proved to-eof,closes,closes-range
 //@   opaque
 //@   modifies models.URL::*, eofs, closes, drains
